@@ -120,6 +120,30 @@ def handleVis (op : String) : P String := do
   | "premask" => do let s ← pState; let a ← pArea; pure (showGrid (premask s a))
   | _ => failure
 
+def handleEnv (op : String) : P String := do
+  match op with
+  | "reset" => do
+      let rs ← pResetSpec
+      let d ← pDraw
+      pure (showExcept (fun (r : State × DrawSt) => showState r.1 ++ " | " ++ showLog r.2.log) (rs.run d))
+  | "env" => do
+      let e ← pEnv
+      let d ← pDraw
+      let ops ← pCounted pOp
+      let r := Machine.run e (Machine.init d) ops
+      pure (" ; ".intercalate (r.2.map showOut) ++ " | " ++ showLog r.1.d.log)
+  | "sscontains" => do
+      let sh ← pNat; let sw ← pNat
+      let kinds ← pCounted pKind; let colors ← pCounted pColor
+      let s ← pState
+      pure (showBool ((⟨sh, sw, kinds, colors⟩ : StateSpace).contains s))
+  | "oscontains" => do
+      let sh ← pNat; let sw ← pNat
+      let kinds ← pCounted pKind; let colors ← pCounted pColor
+      let o ← pState
+      pure (showBool ((⟨sh, sw, kinds, colors⟩ : ObsSpace).contains o))
+  | _ => failure
+
 def handleLine (line : String) : String :=
   match (line.splitOn " ").filter (· ≠ "") with
   | [] => "bad-op"
@@ -136,6 +160,9 @@ def handleLine (line : String) : String :=
       | none =>
         match run handleVis with
         | some o => o
-        | none => "bad-op"
+        | none =>
+          match run handleEnv with
+          | some o => o
+          | none => "bad-op"
 
 end GV.Driver
